@@ -229,3 +229,6 @@ def chk_order(rec, be):
             elif not close(r, dsum / len(a)):
                 out.append(_mm(sub, "%s %s = %r expected %s" % (sub, hdr, r, dsum / len(a)), float(r), dsum / len(a)))
     return n, out
+
+
+import checkers_rel  # noqa: E402,F401  (registers the relational checkers)
